@@ -44,18 +44,15 @@ def underComps (dir p : List Bytes) : Bool := dir.isPrefixOf p
 def inWalk (root p : Bytes) : Bool :=
   !root.isEmpty && (root ++ [47]).isPrefixOf p
 
-/-- which variant of FindPathConf the tree has (decided by the `reset` probe). -/
+/-- stateless: the model is `findPathConf` as the code is written (exact lookup first, then validation). -/
 structure D where
-  validatesFirst : Bool := false
+  unit : Unit := ()
 
-def findV (d : D) (confs : List ConfEntry) (name : Bytes) : FindRes :=
-  if d.validatesFirst then findPathConfFixed confs name else findPathConf confs name
+def findV (_ : D) (confs : List ConfEntry) (name : Bytes) : FindRes := findPathConf confs name
 
 def step (d : D) (op impl : String) : D × DrvOut :=
   match words op with
-  | ["reset"] =>
-    -- impl: "1" = a `~regexp` conf key is accepted as a path name, "0" = rejected
-    ({ validatesFirst := impl == "0" }, { model := impl })
+  | ["reset"] => (d, { model := "ok" })
   | ["valid", nameH] =>
     match Hex.decode nameH with
     | some name =>
@@ -113,7 +110,7 @@ def step (d : D) (op impl : String) : D × DrvOut :=
           let root := commonPath recordPath
           let toks := MtxVerif.C26.tokenize recordPath
           let l := files.filter fun rel =>
-            inWalk root (absOf rel) && (MtxVerif.C26.matchCode toks (absOf rel)).isSome
+            inWalk root (absOf rel) && (MtxVerif.C26.decode toks (absOf rel)).isSome
           if l.isEmpty then "none" else fmtHexList l
       -- spec on the implementation's answer: everything deleted / listed lies under the fixed prefix
       let dirC := absComps cwd (commonPath fmt)
